@@ -61,10 +61,10 @@ def run(ctx):
     ctx.check_proofs()
     bdir = enet.binaries(ctx)
     rng = ctx.rng
-    n = 16 if ctx.quick else 150
+    n = 48 if ctx.quick else 300
     bad = 0
     for t in range(n):
-        dim = rng.choice([2, 2, 3, 1])
+        dim = rng.choice([2, 2, 3, 3, 1])
         tol_abs = rng.choice([1000.0, 1000.0, 200.0, 50.0])
         kinds = {1: ["dh"], 2: ["direction", "distance", "angle"], 3: ["direction", "distance", "angle", "s-distance", "z-angle", "dh"]}[dim]
         net, truth, meta = netgen.make_network(rng, dim=dim, n=rng.randint(4, 6), n_fixed={1: 1, 2: 2, 3: 2}[dim], noise=0.2, kinds=kinds, extra=1.2, approx="perturbed", perturb=0.0)
@@ -74,7 +74,8 @@ def run(ctx):
             for c, v in (("x", x), ("y", y), ("z", z)):
                 if c in p:
                     p[c] = v
-        defect = rng.choice(["blunder", "blunder", "blunder", "isolated-point", "single-direction", "unusable-target", "one-element"])
+        defect = rng.choice(["blunder", "blunder", "blunder", "isolated-point", "single-direction", "unusable-target", "one-element"] +
+                            (["steep-zenith", "steep-zenith", "sdist-to-2d-point"] if dim == 3 else []))
         expect_deleted = copy.deepcopy(net)
         expect_removed_points = []
         expect_outlier = None
@@ -108,6 +109,51 @@ def run(ctx):
                 del expect_deleted["clusters"][ci]["obs"][oi]
                 expect_deleted["clusters"] = [cc for cc in expect_deleted["clusters"] if cc["obs"]]
             ctx.hist("blunder_factor", f); ctx.hist("blunder_type", ob["t"])
+        elif defect == "steep-zenith":
+            # a fixed target almost vertically above a station: horizontal distance << slope distance
+            ids = [p["id"] for p in net["points"]]
+            a = rng.choice(ids)
+            A = truth[a]
+            truth["TOP"] = (A[0] + rng.uniform(1.0, 3.0), A[1] + rng.uniform(1.0, 3.0), A[2] + rng.uniform(60, 120))
+            net["points"].append({"id": "TOP", "x": truth["TOP"][0], "y": truth["TOP"][1], "z": truth["TOP"][2], "fix": "xyz"})
+            f = rng.choice([0.9, 1.1, 1.3])
+            ob = {"t": "z-angle", "to": "TOP", "stdev": net["params"]["sigma-apr"]}
+            unit = positional(ob, truth, a, 1.0)
+            err = f * tol_abs / unit * rng.choice([-1, 1])
+            ob["val"] = netgen.obs_value(ob, truth, 0.0, a) + err
+            sd = {"t": "s-distance", "to": "TOP", "stdev": 5.0}
+            sd["val"] = netgen.obs_value(sd, truth, 0.0, a)
+            net["clusters"].append({"kind": "obs", "from": a, "obs": [sd, ob]})
+            what = "blunder %.1f x tol-abs on z-angle (steep sight)" % f
+            expect_deleted = copy.deepcopy(net)
+            if f > 1.0:
+                expect_outlier = ("zenith-angle", a, "TOP")
+                expect_deleted["clusters"][-1]["obs"] = [sd]
+            defect = "blunder"
+            ctx.hist("blunder_factor", f); ctx.hist("blunder_type", "z-angle-steep")
+        elif defect == "sdist-to-2d-point":
+            # a point with plane coordinates only: slope distances to it cannot be used and must be left out
+            ids = [p["id"] for p in net["points"]]
+            a, b = rng.sample(ids, 2)
+            Q = (truth[a][0] + 70.0, truth[a][1] + 45.0, 0.0)
+            truth["Q2"] = Q
+            net["points"].append({"id": "Q2", "x": Q[0], "y": Q[1], "adj": "xy"})
+            obs_a = []
+            for st in (a, b):
+                d = {"t": "distance", "to": "Q2", "stdev": 5.0}
+                d["val"] = netgen.obs_value(d, truth, 0.0, st) + rng.gauss(0, 0.002)
+                net["clusters"].append({"kind": "obs", "from": st, "obs": [d]})
+            c = {"t": "distance", "to": "Q2", "stdev": 5.0}
+            ids2 = [i for i in ids if i not in (a, b)]
+            if ids2:
+                cst = rng.choice(ids2)
+                c["val"] = netgen.obs_value(c, truth, 0.0, cst) + rng.gauss(0, 0.002)
+                net["clusters"].append({"kind": "obs", "from": cst, "obs": [c]})
+            expect_deleted = copy.deepcopy(net)
+            sdq = {"t": "s-distance", "to": "Q2", "stdev": 5.0}
+            sdq["val"] = netgen.obs_value(sdq, truth, 0.0, a) + 0.004      # consistent with a target height 0: nothing else would reveal it
+            net["clusters"].append({"kind": "obs", "from": a, "obs": [sdq]})
+            what = "slope distance to a point without height"
         elif defect == "isolated-point":
             net["points"].append({"id": "ISO", "adj": "xy" if dim == 2 else ("z" if dim == 1 else "xyz")})
             expect_removed_points = ["ISO"]
